@@ -1296,6 +1296,46 @@ pub fn run(ctx: &Ctx) -> Report {
                 }
                 if ctx.thorough { breakdown.insert("graphs_real_fs", json!({"files": "1..3", "layouts": "all", "styles": "plain (n<=3), backslash (n<=2)", "adjacent_include_lines": "n<=2 every layout, n=3 flat layout", "cases": real_graph_cases})); }
 
+                // names that differ in letter case only are different files (the real file system here is case-sensitive)
+                {
+                    let f = |n: &str, t: &[u8]| (n.to_string(), t.to_vec());
+                    let cases: Vec<(&str, Vec<(String, Vec<u8>)>, Option<&str>)> = vec![
+                        ("incbin of two case-colliding names", vec![f("main.asm", b"#d incbin(\"data.bin\")\n#d incbin(\"Data.bin\")\n"), f("data.bin", b"AAAA"), f("Data.bin", b"BBBB")], Some("4141414142424242")),
+                        ("incbin of two case-colliding names, other order", vec![f("main.asm", b"#d incbin(\"Data.bin\")\n#d incbin(\"data.bin\")\n"), f("data.bin", b"AAAA"), f("Data.bin", b"BBBB")], Some("4242424241414141")),
+                        ("include of two case-colliding names", vec![f("main.asm", b"#include \"part.asm\"\n#include \"PART.asm\"\n"), f("part.asm", b"#d8 1\n"), f("PART.asm", b"#d8 2\n")], Some("0102")),
+                        ("a spelling that does not exist, after the one that does", vec![f("main.asm", b"#d incbin(\"data.bin\")\n#d incbin(\"DATA.BIN\")\n"), f("data.bin", b"AAAA")], None),
+                        ("case-colliding directories", vec![f("main.asm", b"#include \"lib/x.asm\"\n#include \"Lib/x.asm\"\n"), f("lib/x.asm", b"#d8 1\n"), f("Lib/x.asm", b"#d8 2\n")], Some("0102")),
+                    ];
+                    let mut loc = Local::new();
+                    for (k, (name, files, want)) in cases.iter().enumerate() {
+                        let dir = env.base.join(format!("case{}", k));
+                        if let Err(e) = write_tree(&dir, files) {
+                            machinery.get_or_insert(format!("cannot write {}: {}", dir.display(), e));
+                            continue;
+                        }
+                        loc.eval();
+                        loc.nontrivial(name);
+                        loc.class("real-letter-case");
+                        let p = run_proc(&env.bin, &["main.asm".into(), "-q".into(), "-f".into(), "hexstr".into(), "-p".into()], &dir);
+                        loc.traces_validated += 1;
+                        let ok = match want {
+                            Some(w) => p.exit == Some(0) && p.stdout.trim() == *w,
+                            None => p.exit.map(|c| c != 0 && c != 101).unwrap_or(false) && p.stderr.contains("error"),
+                        };
+                        if !ok {
+                            loc.violation(Violation {
+                                property: ID,
+                                key: "real-letter-case".into(),
+                                what: format!("{}: expected {}, observed {}", name, want.map(|w| w.to_string()).unwrap_or("an error (file not found)".into()), p.summary()),
+                                case: json!({"kind": "letter-case", "files": files.iter().map(|(n, b)| json!([n, String::from_utf8_lossy(b)])).collect::<Vec<_>>(), "expected": want, "observed": p.summary()}),
+                            });
+                        }
+                        let _ = std::fs::remove_dir_all(&dir);
+                    }
+                    stash(&mut parts, 8, loc);
+                    breakdown.insert("letter_case_real_fs", json!({"cases": cases.len()}));
+                }
+
                 // resolve under strace: <= 3 components, uniform separators, plus the 4-component strings that start with
                 // `<std>`, `..` or `sub` and end in `x.asm` (the only ones that can name a file two levels up)
                 let mut real_rels = path_strings(&rcomps, if ctx.thorough { 3 } else { 2 }, false);
@@ -1386,6 +1426,26 @@ pub fn replay(ctx: &Ctx, case: &serde_json::Value) -> i32 {
                 println!("roots {:?} -> {} (expected bytes {:02x?})", roots, obs.summary(), want);
                 if !(obs.success() && bits_bytes(&obs.bits).as_ref() == Some(&want)) {
                     l.violation(Violation { property: ID, key: "replay".into(), what: "still differs".into(), case: case.clone() });
+                }
+            }
+            "letter-case" => {
+                let files: Vec<(String, Vec<u8>)> = case["files"].as_array().cloned().unwrap_or_default().iter().map(|f| (f[0].as_str().unwrap_or("").to_string(), f[1].as_str().unwrap_or("").as_bytes().to_vec())).collect();
+                match RealEnv::new("replay") {
+                    Ok(env) => {
+                        let dir = env.base.join("case");
+                        let _ = write_tree(&dir, &files);
+                        let p = run_proc(&env.bin, &["main.asm".into(), "-q".into(), "-f".into(), "hexstr".into(), "-p".into()], &dir);
+                        println!("expected {} observed {}", case["expected"], p.summary());
+                        let ok = match case["expected"].as_str() {
+                            Some(w) => p.exit == Some(0) && p.stdout.trim() == w,
+                            None => p.exit.map(|c| c != 0 && c != 101).unwrap_or(false) && p.stderr.contains("error"),
+                        };
+                        if !ok {
+                            l.violation(Violation { property: ID, key: "replay".into(), what: "still differs".into(), case: case.clone() });
+                        }
+                        env.cleanup();
+                    }
+                    Err(e) => eprintln!("machinery: {}", e),
                 }
             }
             "fragment" => {
